@@ -75,7 +75,7 @@ func goEnv() []string {
 
 var loadPatterns = []string{
 	"./crdt", "./topics", "./subscriptions", "./wasp", "./wasp/ack", "./wasp/expiration", "./wasp/format",
-	"./wasp/sessions", "./wasp/auth", "./wasp/distributed", "./wasp/messages", "./wasp/api",
+	"./wasp/sessions", "./wasp/auth", "./wasp/distributed", "./wasp/messages", "./wasp/api", "./cmd/wasp",
 	"github.com/vx-labs/mqtt-protocol/packet", "github.com/vx-labs/mqtt-protocol/decoder", "github.com/vx-labs/mqtt-protocol/encoder",
 }
 
